@@ -75,8 +75,10 @@ def header_only(s, f):
 
 
 def reply_for(s, f):
-    """the secondary (function + 1) a user callback returns"""
+    """the secondary (function + 1) a user callback returns (where the format allows it, with a body no built-in produces)"""
     cls = CAT_CLS.get((s, f + 1))
+    if (s, f + 1) == (1, 2):
+        return cls(["USERCB", "9.9.9"])
     if cls is not None:
         try:
             return cls()
@@ -145,7 +147,11 @@ class Stream:
             return
         self.user[(s, f)] = outcome
         if outcome == "reply":
-            self.rig.user_outcome[(s, f)] = lambda h_, m_: reply_for(m_.header.stream, m_.header.function)
+            def answer(h_, m_):
+                fn = reply_for(m_.header.stream, m_.header.function)
+                self.user_reply_body = fn.encode()
+                return fn
+            self.rig.user_outcome[(s, f)] = answer
         elif outcome == "none":
             self.rig.user_outcome[(s, f)] = lambda h_, m_: None
         else:
@@ -172,8 +178,13 @@ class Stream:
         outcome, inside = None, []
         in_cb = False
         frames = []
+        n_cb = n_ucb = 0
+        self.user_reply_body = None
         for e in entries:
-            if e[0] == "cb" and (e[1], e[2]) == (s, f):
+            if e[0] == "ucb" and (e[1], e[2]) == (s, f):
+                n_ucb += 1
+            elif e[0] == "cb" and (e[1], e[2]) == (s, f):
+                n_cb += 1
                 in_cb = True
             elif e[0] == "cbres":
                 in_cb = False
@@ -226,6 +237,19 @@ class Stream:
         res.bump("replies", len([fr for fr in mine if fr[0] == "D"]))
         # ---- correspondence
         cls = "equipment" if self.role == "equipment" else "host"
+        dispatched = comm == "COMMUNICATING" and selected and not (f % 2 == 0 and system in waiting)
+        if dispatched:
+            self.lines.append(f"secshandle which {cls} {','.join(f'{a}.{b}' for a, b in sorted(self.user)) or '-'} {s} {f}")
+            self.cases.append(dict(case, what="which callable runs"))
+            self.answers.append("ok " + ("user" if n_ucb else ("builtin" if n_cb else "none")))
+            # the callback table as the property text has it: a registered callback (or, failing that, an inherited
+            # `_on_sXXfYY`) is called exactly once per message, whatever the catalogue says; nothing else is called
+            want_ucb = 1 if (s, f) in self.user else 0
+            want_cb = 1 if has_cb else 0
+            if oracle and (n_ucb, n_cb) != (want_ucb, want_cb):
+                res.violate("registered-callback-not-called" if (n_ucb < want_ucb or n_cb < want_cb) else "callback-called-repeatedly",
+                            f"S{s}F{f}: user callback registered={bool(want_ucb)} called {n_ucb}x; callback present={has_cb} called {n_cb}x",
+                            case, f"user {want_ucb}x, any {want_cb}x", f"user {n_ucb}x, any {n_cb}x")
         if not (comm == "WAIT_CRA" and (s, f) in ((1, 13), (1, 14))):
             self.lines.append(f"secshandle handle {cls} {self.flags} {int(selected)} {comm} {','.join(map(str, waiting)) or '-'} "
                               f"{','.join(f'{a}.{b}' for a, b in sorted(self.user)) or '-'} {oc} {s} {f} {int(bool(w))} {system} {hdr.hex()}")
@@ -253,11 +277,19 @@ class Stream:
                 want = (f"S{s}F0", (s, 0))
             elif outcome is not None and outcome[1] == "none" and inside:
                 want = ("the reply the callback sent itself", (inside[0][1], inside[0][2]))
+            elif outcome is None:
+                klass = "registered-callback-not-called"
+                res.violate(klass, f"S{s}F{f} W: a callback exists and was not called; written: {show}", case, "the callback's reply", show)
+                return
             else:
-                res.bump("outside_statement", "callback returned None" if outcome and outcome[1] == "none" else "callback replied itself, then raised")
+                res.bump("outside_statement", "callback returned None" if outcome[1] == "none" else "callback replied itself, then raised")
                 return
             if len(data) == 1 and (data[0][1], data[0][2]) == want[1]:
-                if want[1] == (9, 5) and data[0][5] != b"\x21\x0a" + hdr:
+                if (s, f) in self.user and outcome is not None and outcome[1] == "fn" and self.user_reply_body is not None \
+                        and data[0][5] != self.user_reply_body:
+                    res.violate("wrong-reply-body", f"S{s}F{f} W: the reply is not the secondary the registered callback returned",
+                                case, self.user_reply_body.hex(), data[0][5].hex())
+                elif want[1] == (9, 5) and data[0][5] != b"\x21\x0a" + hdr:
                     res.violate("s9f5-wrong-header", "S9F5 does not carry the offending header", case, (b"\x21\x0a" + hdr).hex(), data[0][5].hex())
                 elif want[1] == (s, 0) and data[0][5] != b"":
                     res.violate("abort-with-body", "SxF0 carries a body", case, "", data[0][5].hex())
